@@ -80,6 +80,21 @@ def scanExp (s : List Nat) : Option (Option (Int × Nat)) :=
 
 def signLen (s : List Nat) : Nat := match s with | 45 :: _ => 1 | _ => 0
 
+/-- number of bytes of the fraction part (`.` and digits) -/
+def fracBytes : Option (List Nat) → Nat
+  | none => 0
+  | some fs => 1 + fs.length
+
+/-- written exponent (`0` if there is no exponent part) -/
+def expVal : Option (Int × Nat) → Int
+  | none => 0
+  | some (e, _) => e
+
+/-- number of bytes of the exponent part -/
+def expLen : Option (Int × Nat) → Nat
+  | none => 0
+  | some (_, n) => n
+
 def scanToken (s : List Nat) : Option Token :=
   let neg := signLen s == 1
   let s1 := s.drop (signLen s)
@@ -90,23 +105,21 @@ def scanToken (s : List Nat) : Option Token :=
     match scanFrac s2 with
     | none => none
     | some fr =>
-      let s3 := s2.drop (match fr with | none => 0 | some fs => 1 + fs.length)
+      let s3 := s2.drop (fracBytes fr)
       match scanExp s3 with
       | none => none
       | some ex => some { neg := neg, intDigits := ids, fracDigits := fr, exp := ex }
 
 /-- number of bytes of a token -/
 def Token.len (t : Token) : Nat :=
-  (if t.neg then 1 else 0) + t.intDigits.length
-    + (match t.fracDigits with | none => 0 | some fs => 1 + fs.length)
-    + (match t.exp with | none => 0 | some (_, n) => n)
+  (if t.neg then 1 else 0) + t.intDigits.length + fracBytes t.fracDigits + expLen t.exp
 
 /-- all integer and fraction digits as one number -/
 def Token.mantissa (t : Token) : Nat := digitsVal (t.intDigits ++ t.fracDigits.getD [])
 
 /-- decimal exponent: the token denotes `±mantissa · 10^exponent` exactly -/
 def Token.exponent (t : Token) : Int :=
-  (match t.exp with | none => 0 | some (e, _) => e) - ((t.fracDigits.getD []).length : Int)
+  expVal t.exp - ((t.fracDigits.getD []).length : Int)
 
 def Token.isInteger (t : Token) : Bool := t.fracDigits.isNone && t.exp.isNone
 
